@@ -100,6 +100,12 @@ impl Xerr {
     #[verifier::external_body] pub fn unbalanced_repeat() -> Xerr { unimplemented!() }
     #[verifier::external_body] pub fn unbalanced_loop() -> Xerr { unimplemented!() }
     #[verifier::external_body] pub fn unbalanced_break() -> Xerr { unimplemented!() }
+    #[verifier::external_body] pub fn expect_fn_context() -> Xerr { unimplemented!() }
+    #[verifier::external_body] pub fn let_expect_key_lit() -> Xerr { unimplemented!() }
+    #[verifier::external_body] pub fn let_name_or_lit() -> Xerr { unimplemented!() }
+    #[verifier::external_body] pub fn unbalanced_tag_map_builder() -> Xerr { unimplemented!() }
+    #[verifier::external_body] pub fn unbalanced_enum_builder() -> Xerr { unimplemented!() }
+    #[verifier::external_body] pub fn unbalanced_do() -> Xerr { unimplemented!() }
 }
 
 //@type src/opcodes.rs struct RelativeJump
